@@ -175,4 +175,13 @@ theorem api_request_sent_at_most_four_times (again : Nat → Bool) (k : Nat) :
   have : Gen.defaultMaxAuthAttempts = 3 := by decide
   omega
 
+/-- tie to tq/transfer.go: Action.IsExpiredWithin hands both expiry fields of the action to tools.IsExpiredAtOrIn as
+    they are, unconditionally — the precedence between them (expires_in wins) is Expiry.expiration's, not decided here -/
+theorem gen_action_expiry_uses_both_fields :
+    Gen.actionExpiryArgs =
+      [
+       -- a.createdAt, d, a.ExpiresAt, time.Duration(a.ExpiresIn) * time.Second | 
+       [97, 46, 99, 114, 101, 97, 116, 101, 100, 65, 116, 44, 32, 100, 44, 32, 97, 46, 69, 120, 112, 105, 114, 101, 115, 65, 116, 44, 32, 116, 105, 109, 101, 46, 68, 117, 114, 97, 116, 105, 111, 110, 40, 97, 46, 69, 120, 112, 105, 114, 101, 115, 73, 110, 41, 32, 42, 32, 116, 105, 109, 101, 46, 83, 101, 99, 111, 110, 100, 32, 124, 32]
+      ] := by decide
+
 end C15
